@@ -30,6 +30,9 @@ def tasks(tier):
     for s in ((0, 1, 5) if q else range(8)):
         out.append(("partial_runs", dict(nbytes=2, start_idx=s, max_len=8 if q else 12)))
     out.append(("vmdk", dict(kind="kdmv", grain_size=128, ngte=512, n_grains=1 if q else 2, has_parent=True)))
+    # a delta extent that is not the first of a multi-extent disk: the parent is addressed by absolute sectors
+    out.append(("vmdk", dict(kind="kdmv", grain_size=128, ngte=512, n_grains=1, has_parent=True, via="disk",
+                             sector_offset=True)))
     out.append(("hds", dict(version=2, tracks=256, n_clusters=2, has_parent=True)))
     out.append(("vdi", dict(block_size=1 << 20, n_blocks=2, has_parent=True)))
     out.append(("qcow2", dict(cluster_bits=16, n_clusters=1, backing="file")))
